@@ -1,0 +1,149 @@
+// Observation and scheduling hooks used by external runtime monitors.
+// Compiled only with `--cfg dandavison_delta_verif`; inert unless the
+// DELTA_VERIF_* environment variables are set.
+
+use std::fs::{File, OpenOptions};
+use std::io::Write;
+use std::path::Path;
+use std::sync::atomic::{AtomicUsize, Ordering};
+use std::sync::{Condvar, Mutex};
+
+use lazy_static::lazy_static;
+
+struct Sched {
+    order: Vec<String>,
+    next: Mutex<usize>,
+    changed: Condvar,
+}
+
+lazy_static! {
+    // Checked without taking any lock, so that a build with the hooks compiled in
+    // but switched off adds no synchronisation between threads.
+    static ref TRACING: bool = std::env::var_os("DELTA_VERIF_TRACE").is_some();
+    static ref TRACE: Mutex<Option<File>> = Mutex::new(
+        std::env::var_os("DELTA_VERIF_TRACE")
+            .and_then(|p| OpenOptions::new().create(true).append(true).open(p).ok())
+    );
+    static ref SCHED: Sched = Sched {
+        order: std::env::var("DELTA_VERIF_SCHED")
+            .map(|s| s
+                .split(',')
+                .filter(|g| !g.is_empty())
+                .map(|g| g.to_string())
+                .collect())
+            .unwrap_or_default(),
+        next: Mutex::new(0),
+        changed: Condvar::new(),
+    };
+    static ref HOLD: Option<(String, String)> = std::env::var("DELTA_VERIF_HOLD")
+        .ok()
+        .and_then(|s| s.split_once('=').map(|(g, p)| (g.to_string(), p.to_string())));
+    static ref JITTER: Option<u64> = std::env::var("DELTA_VERIF_JITTER")
+        .ok()
+        .and_then(|s| s.parse().ok());
+    // Shadow of the calling-process cell, updated by `caller_stored` while the
+    // cell's own lock is held, so it always equals the cell's value.
+    static ref CALLER_SHADOW: Mutex<String> = Mutex::new("Pending".to_string());
+}
+
+static QUERY_COUNTER: AtomicUsize = AtomicUsize::new(0);
+static JITTER_COUNTER: AtomicUsize = AtomicUsize::new(0);
+
+pub fn tracing() -> bool {
+    *TRACING
+}
+
+pub fn trace(record: &str) {
+    if !*TRACING {
+        return;
+    }
+    if let Ok(mut t) = TRACE.lock() {
+        if let Some(f) = t.as_mut() {
+            let _ = writeln!(f, "{record}");
+        }
+    }
+}
+
+fn jitter(name: &str) {
+    if let Some(seed) = *JITTER {
+        let k = JITTER_COUNTER.fetch_add(1, Ordering::SeqCst) as u64;
+        let mut x = seed
+            ^ k.wrapping_mul(0x9E37_79B9_7F4A_7C15)
+            ^ name.bytes().fold(0xcbf2_9ce4_8422_2325u64, |h, b| {
+                (h ^ b as u64).wrapping_mul(0x100_0000_01b3)
+            });
+        x ^= x >> 33;
+        x = x.wrapping_mul(0xff51_afd7_ed55_8ccd);
+        x ^= x >> 33;
+        match x % 4 {
+            0 => {}
+            1 => std::thread::yield_now(),
+            _ => std::thread::sleep(std::time::Duration::from_micros(x % 3000)),
+        }
+    }
+}
+
+/// A named ordering point. Only ever placed outside critical sections.
+pub fn gate(name: &str) {
+    trace(&format!("gate {name} reached"));
+    if let Some((held, path)) = &*HOLD {
+        if held == name {
+            while !Path::new(path).exists() {
+                std::thread::sleep(std::time::Duration::from_millis(1));
+            }
+        }
+    }
+    jitter(name);
+    let sched = &*SCHED;
+    if let Some(pos) = sched.order.iter().position(|g| g == name) {
+        let mut next = sched.next.lock().unwrap();
+        while *next < pos {
+            next = sched.changed.wait(next).unwrap();
+        }
+        if *next == pos {
+            *next = pos + 1;
+        }
+        // recorded under the sequencer's lock: the order of these records is the forced order
+        trace(&format!("gate {name} passed"));
+        sched.changed.notify_all();
+        return;
+    }
+    trace(&format!("gate {name} passed"));
+}
+
+/// Record a store into the calling-process cell. Must be called with the
+/// cell's lock held; `now` is the cell's value after the store.
+pub fn caller_stored(who: &str, now: &str) {
+    if !*TRACING {
+        return;
+    }
+    if let Ok(mut shadow) = CALLER_SHADOW.lock() {
+        *shadow = now.to_string();
+    }
+    trace(&format!("store {who} now={now}"));
+}
+
+/// Created at the start of a query (before the lock is taken); dropped when the
+/// query returns, at which point the returned guard still holds the lock.
+pub struct QueryObserver {
+    id: usize,
+}
+
+pub fn query_enter() -> QueryObserver {
+    let id = QUERY_COUNTER.fetch_add(1, Ordering::SeqCst) + 1;
+    gate(&format!("query{id}:before_lock"));
+    QueryObserver { id }
+}
+
+impl Drop for QueryObserver {
+    fn drop(&mut self) {
+        if !*TRACING {
+            return;
+        }
+        let value = CALLER_SHADOW
+            .lock()
+            .map(|s| s.clone())
+            .unwrap_or_else(|_| "?".to_string());
+        trace(&format!("query{} -> {}", self.id, value));
+    }
+}
